@@ -38,3 +38,7 @@ CLAIMED["C20"] = dict(
     text="gcpkms.Signer.Sign is proved to return a signature only when the response CRC32C matches it and both request checksums were confirmed, and only for PSS/SHA-256 options (and to send the digest checksum, a precondition of the assumed KMS contract); destroyableState is proved against the state table; wipeoutKey, Wipeout and getEnabledOrPendingKeyVersion are proved, for every number of versions and every legal pagination (page length a free variable per call), to terminate (decreases on remaining items), to visit every item, to leave no ENABLED/DISABLED version when no RPC fails, and to prefer an ENABLED version; the polling functions return only names whose last observed state is ENABLED (partial correctness).",
     note="The KMS service is an assumed paging model (/verif/stubs/kms.spec): fixed item sequence per listing, non-empty pages until the end, empty next-page token exactly at the end, every RPC may fail. Termination of the polling loop depends on the service and ctx and is not claimed.",
 )
+CLAIMED["C10"] = dict(
+    text="rotate.Key is proved against a ghost model of key-manager and certificate-authority state in which the error result of every interface call is a free variable (every single and multiple fault position): the invariant 'recorded primary signing key is live and certified' is a precondition of every manager/authority call (so it holds at every call boundary, i.e. after a crash following any call) and a postcondition of every return; DestroyKeyVersion is only ever called on a key that is not the durable primary; Finalize is never called with an uncertified or dead pending primary; on success the new key is the durable primary and the previous one is destroyed.",
+    note="Interface contracts (/verif/stubs/keymgmt.spec) are assumed for all key managers and authorities, including Finalize's partial-failure behaviour; the implementations are not verified against them here. 'A later fault-free rotation succeeds' (liveness) is not claimed.",
+)
